@@ -16,3 +16,4 @@ def check(repo, rep, tier):
     rep.run(rd.rule_remove_by_identity, em, rep, 'C14.L3', sm)
     rep.run(rx.rule_facts_immutable, em, rep, 'C14.L4')
     rep.run(rx.rule_store_shadows_follow, em, rep, 'C14.L5')
+    rep.run(rd.rule_walked_lists_never_changed_in_place, em, rep, 'C14.L6')
